@@ -6,6 +6,7 @@ import (
 	"context"
 	"errors"
 	"reflect"
+	"sync"
 	"time"
 
 	"diagonal.works/b6"
@@ -24,6 +25,7 @@ import (
 // real sequential map over the same collection with the same replacement.
 
 type vhCtx struct {
+	mu       sync.Mutex // as in the real context: cancel and Err are synchronised (and so are scheduling points)
 	done     chan struct{}
 	canceled bool
 }
@@ -33,6 +35,8 @@ var vhErrCanceled = errors.New("context canceled")
 func (c *vhCtx) Deadline() (time.Time, bool) { return time.Time{}, false }
 func (c *vhCtx) Done() <-chan struct{}       { return c.done }
 func (c *vhCtx) Err() error {
+	c.mu.Lock()
+	defer c.mu.Unlock()
 	if c.canceled {
 		return vhErrCanceled
 	}
@@ -40,6 +44,8 @@ func (c *vhCtx) Err() error {
 }
 func (c *vhCtx) Value(key interface{}) interface{} { return nil }
 func (c *vhCtx) cancel() {
+	c.mu.Lock()
+	defer c.mu.Unlock()
 	if !c.canceled {
 		c.canceled = true
 		close(c.done)
